@@ -49,6 +49,7 @@ type Machine struct {
 	MaxPaths    int
 	MaxDecision int // per path
 	MemCheck    bool
+	MaxFailuresPerID int
 	Deadline    time.Time
 
 	// results
@@ -69,7 +70,7 @@ type Machine struct {
 
 func NewMachine(s *smt.Solver) *Machine {
 	return &Machine{S: s, feasCache: map[string]smt.Result{}, MaxPaths: 200000, MaxDecision: 4000,
-		OblIDs: map[string]*OblStat{}, PathsEnded: map[string]int{}, Reached: map[string]int{}, Assumptions: map[string]bool{}, MemCheck: true}
+		OblIDs: map[string]*OblStat{}, PathsEnded: map[string]int{}, Reached: map[string]int{}, Assumptions: map[string]bool{}, MemCheck: true, MaxFailuresPerID: 6}
 }
 
 // Fresh returns a fresh variable with a deterministic name (per path).
@@ -319,13 +320,13 @@ func (m *Machine) Assert(c *smt.Term, id, msg, kind string) bool {
 	if mod != nil {
 		f.Model = mod.V
 	}
-	dup := false
+	dup := 0
 	for _, o := range m.Failures {
 		if o.ID == f.ID {
-			dup = true
+			dup++
 		}
 	}
-	if !dup {
+	if dup < m.MaxFailuresPerID {
 		m.Failures = append(m.Failures, f)
 	}
 	if m.Debug {
